@@ -708,3 +708,49 @@ BODY_CLASS = {
     'a_await_first': 'await', 'a_finally_yield': 'yield-in-finally', 'a_ge': 'except-GeneratorExit',
     'a_for': 'async-for', 'a_raise': 'raise', 'a_return': 'return', 'a_cancel_cleanup': 'await-in-finally',
 }
+
+
+# ---------------------------------------------------------------------------- handler x nested statement x suspension
+# Complete product: an OUTER except handler containing a complete NESTED statement {try/except that catches,
+# try/except whose body does not raise, with} and THEN a suspension (yield / await) still inside the outer handler,
+# followed by {bare raise, log sys.exc_info(), raise another exception (its __context__ must be the handled one)}.
+_NESTED = {
+    'catch': """        try:
+            raise ValueError('u:inner')
+        except ValueError:
+            L('inner-caught')
+""",
+    'noraise': """        try:
+            L('inner-body')
+        except ValueError:
+            L('never')
+""",
+    'with': """        with H.CM(L):
+            L('in-with')
+""",
+}
+_AFTER = {
+    'reraise': """        raise
+""",
+    'log': """        L(('exc_info', getattr(sys.exc_info()[0], '__name__', None)))
+""",
+    'other': """        raise IndexError('u:new')
+""",
+}
+_SUSPEND = {'xg': "        yield 1\n", 'xc': "        await H.Aw(L, 'susp')\n", 'xa': "        yield 1\n"}
+_HEAD = {'xg': 'def', 'xc': 'async def', 'xa': 'async def'}
+_TAIL = {'xg': "    yield 2\n", 'xc': "    return 'end'\n", 'xa': "    yield 2\n"}
+HANDLER_BODIES = {'xg': [], 'xc': [], 'xa': []}
+_src = ['import sys\n']
+for _k in ('xg', 'xc', 'xa'):
+    for _n in ('catch', 'noraise', 'with'):
+        for _a in ('reraise', 'log', 'other'):
+            _name = '%s_%s_%s' % (_k, _n, _a)
+            HANDLER_BODIES[_k].append(_name)
+            _src.append("%s %s(L, H, box):\n    try:\n        raise KeyError('u:outer')\n    except KeyError:\n%s%s        L('resumed')\n%s%s\n"
+                        % (_HEAD[_k], _name, _NESTED[_n], _SUSPEND[_k], _AFTER[_a], _TAIL[_k]))
+            BODY_CLASS[_name] = 'handler/%s/%s' % (_n, _a)
+BODY_SRC = BODY_SRC + '\n' + ''.join(_src)
+SYNC += HANDLER_BODIES['xg']
+CORO += HANDLER_BODIES['xc']
+AGEN += HANDLER_BODIES['xa']
